@@ -75,7 +75,10 @@ def run_shard(ctx):
     n = 1000 if ctx.tier == "quick" else 6000
     maxops = 25 if ctx.tier == "quick" else 100
     for i in range(n):
-        if i % 25 == 24:
+        if i % 5 == 3:
+            case = hh.gen_threshold_history(rnd, prune=True)
+            ctx.count("threshold_histories")
+        elif i % 25 == 24:
             case = hh.gen_bulk_history(rnd, ctx.tier, prune=True)
             ctx.count("bulk_histories")
         else:
